@@ -60,4 +60,62 @@ PROPS = {
         'rule': 'seeded runs without Flush/Stop, responsive stores, fair schedule (clock advances only when nothing is runnable); non-trivial = a flush was triggered by a limit or by time; distinct = distinct decision sequences',
         'assumptions': LIFE_ASSUME,
     },
+    'C01': {
+        'level': 'exploration',
+        'quick': [('content:general', 1600)],
+        'thorough': [('content:general', 60000)],
+        'rule': 'seeded S-content runs: a store history (1-3 engine configs: compression, fp rate, limits, partition function, minmax keys; flush by every trigger; merges; optional external file '
+                'without filters) then 8-40 generated queries (bloom/regex/prefilter trees, 70% drawn from stored entries) on the real concurrent pipeline; oracle = independent Spec over '
+                'encoding/json token stream; non-trivial = more than one stored block; distinct = distinct decision sequences',
+        'assumptions': ['Spec implements the README search semantics; regex trees with nil-condition children inside And/Or and unknown regex node types are not generated (no documented meaning)'],
+    },
+    'C02': {
+        'level': 'exploration',
+        'quick': [('content:general', 1600)],
+        'thorough': [('content:general', 60000)],
+        'rule': 'same runs as C01; oracle: every returned row stored, matching, at most once; exact without prefilter; whole-block granular with L<=S<=U with prefilter; non-trivial = more than one stored block',
+        'assumptions': ['Spec implements the README search semantics; regex trees with nil-condition children inside And/Or and unknown regex node types are not generated (no documented meaning)'],
+    },
+    'C03': {
+        'level': 'exploration',
+        'quick': [('content:general', 1600)],
+        'thorough': [('content:general', 60000)],
+        'rule': 'same runs as C01 with 1-3 concurrent query clients; oracle: returned rows equal the JSON round trip of the ingested row; deep copies taken at delivery are compared after all scans and after scribbling over other rows; non-trivial = some query returned rows',
+        'assumptions': ['Spec implements the README search semantics; regex trees with nil-condition children inside And/Or and unknown regex node types are not generated (no documented meaning)'],
+    },
+    'C04': {
+        'level': 'exploration',
+        'quick': [('content:general', 1600)],
+        'thorough': [('content:general', 60000)],
+        'rule': 'same runs as C01 with rows carrying every Go numeric kind/magnitude under minmax keys; oracle: exact big-number evaluation of each condition on the row value vs EvaluateDataBlockMetadata on the block and vs Query; non-trivial = a prefilter query was evaluated',
+        'assumptions': ['Spec implements the README search semantics; regex trees with nil-condition children inside And/Or and unknown regex node types are not generated (no documented meaning)'],
+    },
+    'C17': {
+        'level': 'exploration',
+        'quick': [('content:general', 1600)],
+        'thorough': [('content:general', 60000)],
+        'rule': 'every file published during S-content histories (flush and merge output, including files later merged away) is parsed and compared with its bytes and with the ledger; non-trivial = more than one stored block',
+        'assumptions': ['Spec implements the README search semantics; regex trees with nil-condition children inside And/Or and unknown regex node types are not generated (no documented meaning)'],
+    },
+    'C18': {
+        'level': 'exploration',
+        'quick': [('content:general', 1600)],
+        'thorough': [('content:general', 60000)],
+        'rule': 'every file published during S-content histories: Spec entries of each row tested against block and file filters, minmax keys/ranges and partition ids against the ledger; non-trivial = more than one stored block',
+        'assumptions': ['Spec implements the README search semantics; regex trees with nil-condition children inside And/Or and unknown regex node types are not generated (no documented meaning)'],
+    },
+    'C23': {
+        'level': 'exploration',
+        'quick': [('content:general', 1600)],
+        'thorough': [('content:general', 60000)],
+        'rule': 'Stats of every cleanly completed S-content query checked against the census; non-trivial = the query evaluated at least one block',
+        'assumptions': ['Spec implements the README search semantics; regex trees with nil-condition children inside And/Or and unknown regex node types are not generated (no documented meaning)'],
+    },
+    'C24': {
+        'level': 'exploration',
+        'quick': [('content:general', 1600)],
+        'thorough': [('content:general', 60000)],
+        'rule': 'attributed SimDisk call log of every S-content query checked against file/block filters, prefilter and declared extents; non-trivial = the query made store calls',
+        'assumptions': ['Spec implements the README search semantics; regex trees with nil-condition children inside And/Or and unknown regex node types are not generated (no documented meaning)'],
+    },
 }
